@@ -383,9 +383,11 @@ class BufferedSocket:
                 timeout = self.timeout
             chunks = []
             total_bytes = 0
+            # outside the try block: nothing has been taken out of rbuf
+            # yet, so a failure here must not touch it
+            start = time.time()
+            self.sock.settimeout(timeout)
             try:
-                start = time.time()
-                self.sock.settimeout(timeout)
                 nxt = self.rbuf or self.sock.recv(self._recvsize)
                 while nxt:
                     total_bytes += len(nxt)
